@@ -78,10 +78,7 @@ def closed_rules(ck, C):
         bad = T.t2_all_exits(cl, [cb.to], set_after) if set_after else [0]
         ck.verdict(bad is None, C, "T2-all-exits", cl, "Closed=>disconnected-flag", "the 'disconnected' flag is set on every path after Closed", "Closed can be delivered without the source remembering it (it would not remove itself)", site=cl.where(cb.bb))
     # parent: flag => Remove
-    rets = []
-    for i, j, st in pe.statements():
-        if st["s"] == "assign" and st["pl"]["l"] == 0 and st["rv"]["r"] == "agg" and st["rv"].get("variant") == "Ok" and not pe.is_cleanup(i):
-            rets.append((i, T.agg_variant(pe, st["rv"]["fields"][0])))
+    rets = T.ok_returns(pe)
     rm = [i for i, v in rets if v == {("sources::PostAction", "Remove")}]
     # which parent flag is set after Closed? the one whose store follows the Closed callback
     disc_local = None
@@ -112,11 +109,19 @@ def run(ck):
     f = ck.facts
     # ---- clause 1: enqueue first, wake second --------------------------------------------------------------
     n1 = 0
+    units = []
     for q, pth in (("Sender::send", "sources::channel::Sender::<T>::send"), ("SyncSender::send", "sources::channel::SyncSender::<T>::send"), ("SyncSender::try_send", "sources::channel::SyncSender::<T>::try_send")):
         b = ck.body_by_path(pth)
         if b is None:
             ck.anchor_missing("1", "T3-must-precede", q)
             continue
+        units.append((q, b))
+        # a closure of the function that itself enqueues (e.g. the fallback handed to Result::or_else) is a unit
+        # of its own: the same pairing must hold inside it
+        for c in f.closures_of(b):
+            if any(cs.f and cs.f["path"] in MPSC_SENDS and not c.is_cleanup(cs.bb) for cs in c.calls()):
+                units.append((q + "::closure", c))
+    for q, b in units:
         sends = [cs for cs in b.calls() if cs.f and cs.f["path"] in MPSC_SENDS and not b.is_cleanup(cs.bb)]
         # local callees that themselves enqueue-and-ping (SyncSender::send -> self.try_send)
         local_sends = [cs for cs in b.calls() if cs.callee_body() is not None and cs.callee_body().path in ("sources::channel::SyncSender::<T>::try_send", "sources::channel::Sender::<T>::send") and not b.is_cleanup(cs.bb)]
@@ -159,10 +164,18 @@ def run(ck):
     # progress), and a Full answer of try_send still wakes the loop
     ss = ck.body_by_path("sources::channel::SyncSender::<T>::send")
     if ss is not None:
-        blocking = [cs for cs in ss.calls() if cs.f and cs.f["path"] == "std::sync::mpsc::SyncSender::<T>::send" and not ss.is_cleanup(cs.bb)]
+        blocking = [(ss, cs, None) for cs in ss.calls() if cs.f and cs.f["path"] == "std::sync::mpsc::SyncSender::<T>::send" and not ss.is_cleanup(cs.bb)]
+        for c in f.closures_of(ss):
+            # the blocking send sits in a closure handed to a combinator: the combinator call is the site
+            holders = [h.bb for h in ss.calls() if not ss.is_cleanup(h.bb) and c in T.closure_bodies_passed(ss, h)]
+            blocking += [(c, cs, holders) for cs in c.calls() if cs.f and cs.f["path"] == "std::sync::mpsc::SyncSender::<T>::send" and not c.is_cleanup(cs.bb)]
         wake_before = [cs.bb for cs in pings_in(ss)] + [cs.bb for cs in ss.calls() if cs.callee_body() is not None and cs.callee_body().path == "sources::channel::SyncSender::<T>::try_send"]
-        for cs in blocking:
-            ck.verdict(T.t3_dominated_by_any(ss, cs.bb, wake_before), "1", "T3-must-precede", ss, "wake-before-blocking-send", "the blocking send is preceded by a wake-up of the loop (through try_send, which pings when the queue is full)", "SyncSender::send can block without having woken the loop first: with sync_channel(0) the sender and the loop wait for each other for ever", site=ss.where(cs.bb))
+        for owner, cs, holders in blocking:
+            if holders is None:
+                dom = T.t3_dominated_by_any(ss, cs.bb, wake_before)
+            else:
+                dom = bool(holders) and all(T.t3_dominated_by_any(ss, h, wake_before) for h in holders) or T.t3_dominated_by_any(owner, cs.bb, [p.bb for p in pings_in(owner)])
+            ck.verdict(dom, "1", "T3-must-precede", ss, "wake-before-blocking-send", "the blocking send is preceded by a wake-up of the loop (through try_send, which pings when the queue is full)", "SyncSender::send can block without having woken the loop first: with sync_channel(0) the sender and the loop wait for each other for ever", site=owner.where(cs.bb))
     ts = ck.body_by_path("sources::channel::SyncSender::<T>::try_send")
     if ts is not None:
         m = [cs for cs in ts.calls() if cs.f and cs.f["path"] == "std::sync::mpsc::SyncSender::<T>::try_send" and not ts.is_cleanup(cs.bb)]
